@@ -180,12 +180,6 @@ fn main() {
     let a = "shadow";
     println(a);
 }`)},
-	{"closures", Single(`
-fn main() {
-    let k = 10;
-    let add = fn(x: int) -> int { x + k };
-    println(add(1), add(add(2)));
-}`)},
 	{"warnings", Single(`
 fn unused_fn() {}
 fn main() {
@@ -193,6 +187,18 @@ fn main() {
     let unused_b = 2;
     let unused_c = 3;
     println("w");
+}`)},
+	{"warnings-same-line", Single(`
+fn area(width: int, height: int) -> int { 42 }
+fn main() {
+    let a = 1; let b = 2; let c = 3;
+    println(area(1, 2));
+}`)},
+	{"closure-captures-local", Single(`
+fn main() {
+    let outer = 5;
+    let f = fn(n: int) -> int { n + outer };
+    println(f(2));
 }`)},
 	{"type-errors", Single(`
 fn f(a: int) -> str { a }
@@ -309,6 +315,13 @@ func c14Baseline(t *testing.T, p c14Prog, backend int) *c14Base {
 	c14Bases[key] = b
 	spec := RunSpec{Property: "C14", Sim: c14SimParams(), Choices: &simrt.Sparse{}}
 	res, outs := c14Exec(t, spec, []c14Prog{p}, backend)
+	if res.Outcome == "crash" {
+		// a crash of the sorted-order run is that program's outcome: what matters here is
+		// whether every other order crashes the same way
+		b.po = progOutcome{Outcome: "crash", Panic: res.Sig}
+		b.steps = res.Steps
+		return b
+	}
 	if res.Outcome != "ok" || len(outs) != 1 {
 		b.skip = "baseline run: " + res.Outcome + " " + clip(res.Detail)
 		if strings.Contains(res.Detail, "step budget") {
@@ -318,9 +331,6 @@ func c14Baseline(t *testing.T, p c14Prog, backend int) *c14Base {
 	}
 	b.po = outs[0]
 	b.steps = res.Steps
-	if strings.HasPrefix(b.po.Panic, "analyzer") || b.po.Panic != "" {
-		b.skip = "baseline panics (not a determinism matter): " + b.po.Panic
-	}
 	return b
 }
 
@@ -342,7 +352,7 @@ func runC14(t *testing.T, spec RunSpec) *Verdict {
 		return v
 	}
 	progs := []c14Prog{p}
-	if other := spec.P("repeat_after", -1); other >= 0 && other < len(c14Corpus) && c14Baseline(t, c14Corpus[other], backend).skip == "" && !readsClock(p.prog) {
+	if other := spec.P("repeat_after", -1); other >= 0 && other < len(c14Corpus) && c14Baseline(t, c14Corpus[other], backend).skip == "" && c14Baseline(t, c14Corpus[other], backend).po.Outcome != "crash" && base.po.Outcome != "crash" && !readsClock(p.prog) {
 		// the same program again in the same process after another program
 		progs = []c14Prog{p, c14Corpus[other], p}
 	}
@@ -353,11 +363,21 @@ func runC14(t *testing.T, spec RunSpec) *Verdict {
 		return v
 	}
 	if v.Class != "" {
-		// a crash, deadlock or runaway that the sorted-order baseline does not have
+		crashed := c14Running
+		if res.Outcome == "crash" && crashed == p.name && base.po.Outcome == "crash" && base.po.Panic == res.Sig {
+			// the sorted-order baseline crashes in the same place: deterministic (and not C14's business)
+			v.Class, v.Clause, v.Msg, v.Sig = "", "", "", ""
+			return v
+		}
+		// a crash, deadlock or runaway that the sorted-order baseline does not have (or has differently)
 		v.Class = "order-dependence"
-		cell = c14Running + "/" + []string{"vm", "interp"}[backend]
+		cell = crashed + "/" + []string{"vm", "interp"}[backend]
 		v.Sig = P + "|order-dependence|outcome|" + cell
-		v.Msg = "under a permuted map order / schedule the run ended in " + res.Outcome + " (" + clip(res.Detail) + "); the sorted-order baseline completes"
+		what := "completes"
+		if crashed == p.name && base.po.Outcome == "crash" {
+			what = "crashes differently (" + base.po.Panic + ")"
+		}
+		v.Msg = "under a permuted map order / schedule the run ended in " + res.Outcome + " (" + clip(res.Detail) + "); the sorted-order baseline " + what + "; non-default orders at sites " + fmt.Sprint(siteList(res.MapSites))
 		return v
 	}
 	check := func(i int, what string) bool {
@@ -483,7 +503,7 @@ func planC14(t *testing.T, tier string, seed uint64) ([]RunSpec, error) {
 				if k%5 == 4 {
 					for o := 1; o < len(c14Targeted); o++ {
 						cand := (pi + o + k) % len(c14Targeted)
-						if c14Baseline(t, c14Corpus[cand], backend).skip == "" {
+						if cb := c14Baseline(t, c14Corpus[cand], backend); cb.skip == "" && cb.po.Outcome != "crash" {
 							s.Params["repeat_after"] = cand
 							break
 						}
